@@ -156,7 +156,7 @@ a [ i ] = i ;
 # pragma occa attributes @ outer
 for ( int o = 0 ; o < S ( 3 ) ; ++ o ) {
 for ( int i = 0 ; i < 2 ; ++ i ; @ inner ) {
-a [ i ] = __LINE__ + sizeof ( int ) ;
+a [ i ] = __LINE__ + sizeof ( a [ 0 ] ) ;
 }
 }
 }"""),
@@ -188,6 +188,8 @@ for ( int i = 0 ; i < 4 ; ++ i ; @ inner ) {
 }
 }"""))
 
+HOST_ONLY_SEEDS = ("atomic-block",)
+
 # replacement alphabet (one representative per lexical / syntactic role)
 ALPHABET = ["(", ")", "{", "}", "[", "]", "@", ";", ",", "#", ":", "=", "<", "++", "*", ".",
             "for", "if", "else", "return", "break", "int", "void", "struct",
@@ -195,7 +197,7 @@ ALPHABET = ["(", ")", "{", "}", "[", "]", "@", ";", ",", "#", ":", "=", "<", "++
             "0", "1.5f", "\"s\"", "zz"]
 
 # smaller alphabet for the distance-2 window family (both edits)
-ALPHA2 = ["(", ")", "{", "}", "[", "@", ";", ",", "#", "for", "int", "inner", "shared", "0", "zz"]
+ALPHA2 = ["(", ")", "{", "[", "@", ";", ",", "for", "int", "0"]
 
 
 def real_positions(tokens):
